@@ -568,6 +568,7 @@ func main() {
 	h := hx.New("C14")
 	registerOpenClose(h)
 	registerRamp(h)
+	registerItems(h)
 	for _, uo := range []bool{false, true} {
 		for _, n := range []int{1, 2} {
 			name := concurrentName(uo, n)
